@@ -7,10 +7,16 @@ every op the loaded modules, entrypoints, completed list, symbol keys per module
 outcome are compared with the model (driver family `session`).
 Search (real code only): every transpile result inside a session vs the same request in a fresh process (own EMPTY cache
 directory, PYTHONHASHSEED in {0,1,2,random}); Interactive re-submissions with and without a failing submission in between;
-Runner target lists in all orders; node classes and symbol objects of untouched modules before/after every loading op.
+Runner target lists in all orders; node classes, definition node facts (every expandable property of class / function nodes: base
+classes, decorators, template parameters, parameters, return type), symbol objects and symbol attribute trees of registered modules
+before/after every op, and against the first time the same module (same file) was registered in the session (reload = restore from
+the stored symbol snapshot). Pools contain a generic-function module (app.g) and a shapes module (app.h, 144 variants: generic base
+with a template typed member, concrete subclass chain, a function with 10..12 parameters) whose users read the inherited member /
+call the wide function.
 """
 from __future__ import annotations
 
+import hashlib
 import itertools
 import json
 import os
@@ -168,11 +174,34 @@ class RealSession:
 						classes[p] = type(nodes.by(p)).__name__
 					except Exception as e:  # noqa: BLE001
 						classes[p] = canon(e)
-				syms = {k: (id(s), type(s).__name__, s.types.fullyname, dump_symbol(s) if mod.path == G_NAME else '') for k, s in self.db.items(mod.path)}
-				snap[mod.path] = {'ep': id(ep), 'classes': classes, 'symbols': syms}
+				syms = {k: (id(s), type(s).__name__, s.types.fullyname, dump_symbol(s)) for k, s in self.db.items(mod.path)}
+				snap[mod.path] = {'ep': id(ep), 'classes': classes, 'symbols': syms, 'facts': node_facts(nodes, paths, classes)}
 			except Exception as e:  # noqa: BLE001 - the real code raised while being observed: visible as a difference
-				snap[mod.path] = {'ep': 0, 'classes': {}, 'symbols': {}, 'error': canon(e)}
+				snap[mod.path] = {'ep': 0, 'classes': {}, 'symbols': {}, 'facts': {}, 'error': canon(e)}
 		return snap
+
+
+DEF_NODES = {'Class', 'Enum', 'AltClass', 'TemplateClass', 'Function', 'Method', 'ClassMethod', 'Constructor', 'Closure'}
+
+
+def node_facts(nodes: Any, paths: list[str], classes: dict[str, str]) -> dict[str, Any]:
+	"""What the syntax tree says about every definition node, read through the node's expandable properties (for a class: symbol,
+	decorators, template parameters, base classes, ...; for a function: parameters, return type, ...). Values are source text, so
+	they belong to the file: nothing a session does to ANY module may change them, and a reloaded module shows them again."""
+	facts: dict[str, Any] = {}
+	for p in paths:
+		if classes.get(p) not in DEF_NODES:
+			continue
+		node = nodes.by(p)
+		for key in node.prop_keys():
+			if key in ('statements', 'block'):
+				continue
+			try:
+				v = getattr(node, key)
+				facts[f'{p}@{key}'] = [x.tokens for x in v] if isinstance(v, list) else v.tokens
+			except Exception as e:  # noqa: BLE001
+				facts[f'{p}@{key}'] = canon(e)
+	return facts
 
 
 def dump_symbol(raw: Any, depth: int = 0) -> str:
@@ -220,10 +249,83 @@ def g_extra(ctx: Ctx) -> int:
 	if _G_KEYS is None:
 		proj = ctx.tmpdir('c04-g-')
 		write_pool(proj, [stub_g()])
-		ses = RealSession(proj, ctx.tmpdir('c04-cache-'))
+		ses = RealSession(proj, warm_cache(ctx, prelude(ctx)['cache']))
 		ses.modules.load(G_NAME)
 		_G_KEYS = len(list(ses.db.items(G_NAME)))
 	return _G_KEYS - 4
+
+
+H_NAME = 'app.h'
+H_TYPES = ['int', 'str', 'float', 'bool']
+H_LITS = {'int': '1', 'str': "'a'", 'float': '1.5', 'bool': 'True'}
+H_VARIANTS = 2 * 2 * 3 * 3 * 4
+
+
+def h_shape(hv: int) -> dict[str, Any]:
+	"""The shapes module comes in 144 variants: how the generic base is declared, how long the chain from the concrete subclass to it
+	is, the actual type argument, and width / parameter types / return type of the wide function."""
+	form, hv = hv % 2, hv // 2
+	depth, hv = hv % 2, hv // 2
+	arg, hv = H_TYPES[hv % 3], hv // 3
+	width, hv = 10 + hv % 3, hv // 3
+	rot = hv % 4
+	params = [H_TYPES[(i + rot) % 4] for i in range(width)]
+	# the result type is not the type of the last parameter nor of the tenth (attribute keys in textual order "0, 1, 10, 11, 2, .., 9" end
+	# with the tenth): a rotated or textually sorted attribute list shows in the caller's output
+	ret = [t for t in H_TYPES[rot:] + H_TYPES[:rot] if t not in (params[-1], params[9])][0]
+	return {'form': form, 'depth': depth, 'arg': arg, 'params': params, 'ret': ret}
+
+
+def h_source(hv: int) -> str:
+	"""A generic base `Box` declaring a template typed member `v: T`, a NON generic subclass chain `Held(Box[int])` / `Held(Mid)`,
+	`Mid(Box[int])` whose users read the inherited member through a Held receiver, and a function with 10..12 parameters of mixed
+	types whose result type reaches the caller's output (`float b = mix(..)`): eleven or more sibling attributes on one symbol."""
+	sh = h_shape(hv)
+	head = ['from typing import Generic, TypeVar', '', "T = TypeVar('T')", '', 'class Box(Generic[T]):'] if sh['form'] == 0 else ['class Box[T]:']
+	lines = [*head, '\tv: T', '', '\tdef __init__(self, v: T) -> None:', '\t\tself.v = v', '']
+	if sh['depth']:
+		lines += [f"class Mid(Box[{sh['arg']}]): ...", '', 'class Held(Mid):']
+	else:
+		lines += [f"class Held(Box[{sh['arg']}]):"]
+	lines += ['\tdef twice(self, x: int) -> int:', '\t\treturn x', '']
+	ps = ', '.join(f'a{i}: {t}' for i, t in enumerate(sh['params']))
+	lines += [f"def mix({ps}) -> {sh['ret']}:", f"\treturn {H_LITS[sh['ret']]}"]
+	return '\n'.join(lines)
+
+
+def h_member_src(hv: int) -> list[str]:
+	return [f"b = Held({H_LITS[h_shape(hv)['arg']]}).v", 'return x']
+
+
+def h_wide_src(hv: int) -> list[str]:
+	return [f"b = mix({', '.join(H_LITS[t] for t in h_shape(hv)['params'])})", 'return x']
+
+
+def stub_h(hv: int) -> dict[str, Any]:
+	"""The shapes module as the model sees it: `Held.twice` and `mix.a0` as named keys (what a using method needs), the rest as a number;
+	the declaration with Generic/TypeVar imports the library closure module `typing` (a bare dependency edge)."""
+	meth = lambda n: {'name': n, 'call': None, 'bad': False, 'lam': False}  # noqa: E731
+	return {'name': H_NAME, 'ok': True, 'imports': [('typing', '')] if h_shape(hv)['form'] == 0 else [],
+		'classes': [{'name': 'Held', 'methods': [meth('twice')]}, {'name': 'mix', 'methods': [meth('a0')]}], 'vars': [], 'stub': 'h', 'hv': hv}
+
+
+_H_KEYS: dict[int, int] = {}
+
+
+def stub_extra(ctx: Ctx, mod: dict[str, Any]) -> int:
+	"""Keys of a stub module beyond the ones its descriptor names (measured on the real code)."""
+	if mod.get('stub') == 'g':
+		return g_extra(ctx)
+	if mod.get('stub') == 'h':
+		hv = mod['hv']
+		if hv not in _H_KEYS:
+			proj = ctx.tmpdir('c04-h-')
+			write_pool(proj, [mod])
+			ses = RealSession(proj, warm_cache(ctx, prelude(ctx)['cache']))
+			ses.modules.load(H_NAME)
+			_H_KEYS[hv] = len(list(ses.db.items(H_NAME)))
+		return _H_KEYS[hv] - 8
+	return 0
 
 
 def cls_prefix(name: str) -> str:
@@ -235,6 +337,7 @@ def gen_module(rng: random.Random, name: str, earlier: list[dict[str, Any]], p_b
 	# imports: classes of earlier modules (acyclic), sometimes a missing name, a missing file or a back edge
 	callable_imports: list[tuple[str, str]] = []
 	has_g = any(e.get('stub') == 'g' for e in earlier)
+	hs = [e for e in earlier if e.get('stub') == 'h']
 	plain = [e for e in earlier if not e.get('stub')]
 	chosen = rng.sample(plain, min(len(plain), rng.choice([0, 1, 1, 2, 2])))
 	if plain and rng.random() < 0.5 and plain[-1] not in chosen:
@@ -243,6 +346,10 @@ def gen_module(rng: random.Random, name: str, earlier: list[dict[str, Any]], p_b
 	uses_g = has_g and rng.random() < 0.7
 	if uses_g:
 		mod['imports'].append((G_NAME, 'cube'))
+	# users of the shapes module: readers of the inherited template typed member and / or callers of the wide function
+	h_uses = rng.choice([[], ['Held'], ['mix'], ['Held', 'mix'], ['Held', 'mix']]) if hs else []
+	for n in h_uses:
+		mod['imports'].append((H_NAME, n))
 	for dep in chosen:
 		names = [c['name'] for c in dep['classes']]
 		if names and rng.random() < 0.9:
@@ -272,6 +379,11 @@ def gen_module(rng: random.Random, name: str, earlier: list[dict[str, Any]], p_b
 					# modelled like a call: the renderer needs `app.g#cube.v`, the local variable is one more key
 					meth['call'] = (G_NAME, 'cube', 'v')
 					meth['gen'] = G_LITERALS[sum(map(ord, name)) % len(G_LITERALS)]
+				elif h_uses and rng.random() < 0.7:
+					# modelled like a call as well: one local `b`, the renderer needs `app.h#Held.twice` / `app.h#mix.a0`
+					use = rng.choice(h_uses)
+					meth['call'] = (H_NAME, 'Held', 'twice') if use == 'Held' else (H_NAME, 'mix', 'a0')
+					meth['src'] = h_member_src(hs[0]['hv']) if use == 'Held' else h_wide_src(hs[0]['hv'])
 				elif callable_imports and rng.random() < 0.6:
 					dep, b = rng.choice(callable_imports)
 					meth['call'] = (dep, b, 'g')
@@ -289,12 +401,14 @@ def gen_module(rng: random.Random, name: str, earlier: list[dict[str, Any]], p_b
 
 
 def gen_pool(rng: random.Random, p_bad: float) -> list[dict[str, Any]]:
-	n = rng.randint(4, 6)
-	names = ['app.a', 'app.ab', *rng.sample(NAME_POOL[2:], n - 2)]
-	rng.shuffle(names)
 	pool: list[dict[str, Any]] = []
 	if rng.random() < 0.5:
 		pool.append(stub_g())
+	if rng.random() < 0.5:
+		pool.append(stub_h(rng.randrange(H_VARIANTS)))
+	n = rng.randint(4, 6 if len(pool) < 2 else 5)
+	names = ['app.a', 'app.ab', *rng.sample(NAME_POOL[2:], n - 2)]
+	rng.shuffle(names)
 	for name in names:
 		pool.append(gen_module(rng, name, list(pool), p_bad, names))
 	return pool
@@ -307,6 +421,8 @@ def gen_main(rng: random.Random, pool: list[dict[str, Any]], p_bad: float) -> di
 def render_source(mod: dict[str, Any]) -> str:
 	if mod.get('stub') == 'g':
 		return G_SOURCE
+	if mod.get('stub') == 'h':
+		return h_source(mod['hv'])
 	lines: list[str] = []
 	for dep, n in mod['imports']:
 		lines.append(f'from {dep} import {n}')
@@ -320,6 +436,8 @@ def render_source(mod: dict[str, Any]) -> str:
 			if m.get('gen'):
 				lines.append(f"\t\ta = cube({m['gen']}, 2)")
 				lines.append('\t\treturn x')
+			elif m.get('src'):
+				lines += [f'\t\t{x}' for x in m['src']]
 			elif m['call']:
 				lines.append(f"\t\tb = {m['call'][1]}()")
 				lines.append(f"\t\treturn b.{m['call'][2]}(x)")
@@ -369,13 +487,21 @@ def write_pool(proj: str, pool: list[dict[str, Any]]) -> None:
 _PRELUDE: dict[str, Any] | None = None
 
 
+def warm_cache(ctx: Ctx, src: str) -> str:
+	"""A private cache directory that starts as a copy of `src` (measuring sessions: the library closure need not be parsed again)."""
+	d = ctx.tmpdir('c04-cache-')
+	shutil.copytree(src, d, dirs_exist_ok=True)
+	return d
+
+
 def prelude(ctx: Ctx) -> dict[str, Any]:
 	"""Library stubs as the model sees them: import edges and number of symbol keys, read from the real code."""
 	global _PRELUDE
 	if _PRELUDE is None:
 		from rogw.tranp.providers.module import library_paths
 		proj = ctx.tmpdir('c04-prelude-')
-		ses = RealSession(proj, ctx.tmpdir('c04-cache-'))
+		lib_cache = ctx.tmpdir('c04-cache-')
+		ses = RealSession(proj, lib_cache)
 		libs = [p.path for p in library_paths()]
 		for lib in libs:
 			ses.modules.load(lib)
@@ -390,14 +516,15 @@ def prelude(ctx: Ctx) -> dict[str, Any]:
 		for m in mods:
 			m['always'] = []
 		for lib in libs:
-			probe = RealSession(proj, ctx.tmpdir('c04-cache-'))
+			probe = RealSession(proj, warm_cache(ctx, lib_cache))
 			for x in libs:
 				probe.modules.load(x)
 			probe.modules.unload(lib)
 			for m in mods:
 				if m['name'] != lib and m['name'] in probe.loaded() and probe.transpile(m['name'])[0] != 'text':
 					m['always'].append(rep[lib])
-		_PRELUDE = {'libs': libs, 'mods': mods, 'std_method': [f'{libs[0]}#type', f'{libs[1]}#int'], 'std_var': [f'{libs[1]}#int']}
+		_PRELUDE = {'libs': libs, 'mods': mods, 'std_method': [f'{libs[0]}#type', f'{libs[1]}#int'], 'std_var': [f'{libs[1]}#int'],
+			'cache': lib_cache}
 	return _PRELUDE
 
 
@@ -409,7 +536,7 @@ def world_lines(ctx: Ctx, pool: list[dict[str, Any]]) -> list[str]:
 		lines.append('\t'.join(['mod', m['name'], '1', imps, ';'.join(m['named']) or '-', '-', str(m['keys'] - len(m['named'])), ','.join(m['always']) or '-']))
 	lines.append('\t'.join(['std', ','.join(pre['std_method']), ','.join(pre['std_var'])]))
 	for mod in pool:
-		lines.append('\t'.join(['mod', mod['name'], *desc_tokens(mod), str(g_extra(ctx)) if mod.get('stub') == 'g' else '0']))
+		lines.append('\t'.join(['mod', mod['name'], *desc_tokens(mod), str(stub_extra(ctx, mod))]))
 	lines.append('libs\t' + ','.join(pre['libs']))
 	lines.append(f'main\t{MAIN}')
 	lines.append('init')
@@ -465,13 +592,14 @@ def gen_ops(rng: random.Random, pool: list[dict[str, Any]], n: int, p_bad: float
 				c, b, a = rng.choice(chains)
 				ops += [['transpile', c], ['unload', a], ['transpile', c]]
 				continue
-		if rng.random() < 0.08:
+		if rng.random() < 0.1:
 			# a dependant is transpiled, one of its imports unloaded, the dependant transpiled again
 			users = [m for m in pool if any(d in names for d, _ in m['imports'])]
 			if users:
 				u = rng.choice(users)
 				d = rng.choice([d for d, _ in u['imports'] if d in names])
-				ops += [['transpile', u['name']], ['unload', d], ['transpile', u['name']]]
+				# .. or the import itself transpiled after its user (what the user's transpile looked up in it must not show)
+				ops += [['transpile', u['name']], ['unload', d] if rng.random() < 0.6 else ['transpile', d], ['transpile', u['name']]]
 				continue
 		target = rng.choice(names)
 		if rng.random() < p_bad * 0.15:
@@ -491,31 +619,39 @@ def gen_ops(rng: random.Random, pool: list[dict[str, Any]], n: int, p_bad: float
 # one session on the real code: observations + transpile results + frame check
 
 
-def run_session(ctx: Ctx, pool: list[dict[str, Any]], ops: list[list[Any]], proj: str | None = None, frame_check: bool = True) -> dict[str, Any]:
+def run_session(ctx: Ctx, pool: list[dict[str, Any]], ops: list[list[Any]], proj: str | None = None, frame_check: bool = True, warm: bool = False) -> dict[str, Any]:
+	"""warm: the session's private cache directory starts as a copy of the one a process that loaded only the library modules left
+	behind (syntax trees and symbol snapshots of the library closure: the usual state of a second tranp run), otherwise empty."""
 	if proj is None:
 		proj = ctx.tmpdir('c04-proj-')
 		write_pool(proj, pool)
+	cache_dir = warm_cache(ctx, prelude(ctx)['cache']) if warm else ctx.tmpdir('c04-cache-')
 	by_name = {m['name']: m for m in pool}
 	pre_names = {m['name'] for m in prelude(ctx)['mods']}
 	lines: list[str] = []
 	try:
-		ses = RealSession(proj, ctx.tmpdir('c04-cache-'))
+		ses = RealSession(proj, cache_dir)
 	except Exception as e:  # noqa: BLE001 - the property says a process can be set up: reported by the search
 		for op in ops:
 			lines.append('\t'.join(['resubmit', *desc_tokens(op[1])]) if op[0] == 'resubmit' else f'{op[0]}\t{op[1]}')
-		return {'proj': proj, 'lines': lines, 'real': [f'app-error:{canon(e)}'] * len(ops), 'results': [], 'frame_bad': [], 'crash': canon(e)}
+		return {'proj': proj, 'lines': lines, 'real': [f'app-error:{canon(e)}'] * len(ops), 'results': [], 'frame_bad': [], 'reload_bad': [], 'crash': canon(e)}
 	real: list[str] = []
 	results: list[dict[str, Any]] = []
 	frame_bad: list[dict[str, Any]] = []
 	dirty: set[str] = set()
 	lines = []
 	cur_main: dict[str, Any] | None = None
+	prev_snap: dict[str, Any] = {}
+	first_view: dict[str, Any] = {}
+	reload_bad: list[dict[str, Any]] = []
+	reload_seen: set[str] = set()
 	for i, op in enumerate(ops):
 		kind = op[0]
 		before = ses.loaded()
 		watch = [m for m in before if m not in pre_names]
 		# every op (also `unload`, whose cascade removes importers): the modules that stay registered must stay untouched
-		snap = ses.snapshot(watch) if frame_check else {}
+		# (nothing runs between two ops: the snapshot after the previous op is the one before this op)
+		snap = prev_snap if frame_check else {}
 		if kind == 'resubmit':
 			lines.append('\t'.join(['resubmit', *desc_tokens(op[1])]))
 			k, payload = ses.resubmit(render_source(op[1]))
@@ -547,16 +683,32 @@ def run_session(ctx: Ctx, pool: list[dict[str, Any]], ops: list[list[Any]], proj
 		if kind == 'resubmit':
 			if k != 'load-error':
 				dirty.discard(MAIN)
-		if snap:
+		if frame_check:
+			prev_snap = ses.snapshot([m for m in after if m not in pre_names])
+			now = prev_snap
+			# a module of the pool is a file that never changes: whenever it is registered with its symbols complete (first load,
+			# reload after an unload = symbols restored from the stored snapshot, or just still there), its definition nodes and
+			# its symbols with their attribute trees say what they said the first time
+			for m, sn in now.items():
+				if m == MAIN or 'error' in sn or not ses.db.completed(m):
+					continue
+				view = {'facts': sn['facts'], 'symbols': {k: v[1:] for k, v in sn['symbols'].items()}}
+				if m not in first_view:
+					first_view[m] = view
+				elif view != first_view[m] and m not in reload_seen:
+					reload_seen.add(m)
+					part = 'facts' if view['facts'] != first_view[m]['facts'] else 'symbols'
+					reload_bad.append({'op': i, 'module': m, 'what': f"{part}: {dict_diff(first_view[m][part], view[part])}"})
 			still = [m for m in watch if m in after and not (kind == 'resubmit' and m == MAIN)]
-			now = ses.snapshot(still)
 			for m in still:
-				if m not in now or now[m] != snap[m]:
-					what = 'entrypoint object replaced' if m in now and now[m]['ep'] != snap[m]['ep'] else \
-						'node classes changed' if m in now and now[m]['classes'] != snap[m]['classes'] else 'symbol table entries changed'
+				if m in snap and (m not in now or now[m] != snap[m]):
+					what = 'the real code raised while being observed' if m not in now else 'entrypoint object replaced' if now[m]['ep'] != snap[m]['ep'] else \
+						'node classes changed' if now[m]['classes'] != snap[m]['classes'] else \
+						f"definition node facts changed: {dict_diff(snap[m]['facts'], now[m]['facts'])}" if now[m]['facts'] != snap[m]['facts'] else \
+						f"symbol table entries changed: {dict_diff(snap[m]['symbols'], now[m]['symbols'])}"
 					# transpiling m itself may legitimately resolve more of m's own nodes; classes of already resolved paths must not change
 					frame_bad.append({'op': i, 'module': m, 'what': what})
-	return {'proj': proj, 'lines': lines, 'real': real, 'results': results, 'frame_bad': frame_bad}
+	return {'proj': proj, 'lines': lines, 'real': real, 'results': results, 'frame_bad': frame_bad, 'reload_bad': reload_bad}
 
 
 # ---------------------------------------------------------------------------------------------
@@ -566,6 +718,36 @@ def run_session(ctx: Ctx, pool: list[dict[str, Any]], ops: list[list[Any]], proj
 def fresh_results(ctx: Ctx, proj: str, queries: list[dict[str, Any]], hash_seed: str, jobs: int = 4, tpl: str | None = None) -> dict[str, list[Any]]:
 	if not queries:
 		return {}
+	# the same request over the same files under the same hash seed is asked once per run (several corpus cases share a pool)
+	digest = proj_digest(proj)
+	def ck(q: dict[str, Any]) -> str:
+		return hashlib.sha256(json.dumps([digest, tpl, hash_seed, q.get('module'), q.get('main')]).encode()).hexdigest()
+	known = {q['id']: _FRESH[ck(q)] for q in queries if ck(q) in _FRESH}
+	asked = [q for q in queries if q['id'] not in known]
+	if not asked:
+		return known
+	out = _fresh_results(proj, asked, hash_seed, jobs, tpl)
+	for q in asked:
+		_FRESH[ck(q)] = out[q['id']]
+	return {**known, **out}
+
+
+_FRESH: dict[str, list[Any]] = {}
+_DIGESTS: dict[str, str] = {}
+
+
+def proj_digest(proj: str) -> str:
+	if proj not in _DIGESTS:
+		parts = []
+		for root, _dirs, files in sorted(os.walk(proj)):
+			for fn in sorted(files):
+				with open(os.path.join(root, fn), encoding='utf-8') as f:
+					parts.append([os.path.relpath(os.path.join(root, fn), proj), f.read()])
+		_DIGESTS[proj] = hashlib.sha256(json.dumps(parts).encode()).hexdigest()
+	return _DIGESTS[proj]
+
+
+def _fresh_results(proj: str, queries: list[dict[str, Any]], hash_seed: str, jobs: int, tpl: str | None) -> dict[str, list[Any]]:
 	env = dict(os.environ)
 	env['PYTHONHASHSEED'] = hash_seed
 	env['PYTHONPATH'] = f"{os.path.join(common.VERIF, 'compat')}:{common.REPO}:{common.VERIF}"
@@ -649,6 +831,16 @@ def compare_with_fresh(ctx: Ctx, res: SearchResult, case: dict[str, Any], run: d
 			res.samples.append({'target': r['target'], 'op': r['op'], 'result': short(r['res'])})
 
 
+def dict_diff(a: dict[str, Any], b: dict[str, Any]) -> str:
+	for k in a:
+		if k not in b:
+			return f'{k} is gone'
+		if a[k] != b[k]:
+			return f'{k}: {a[k]!r} became {b[k]!r}'
+	extra = [k for k in b if k not in a]
+	return f'{extra[0]} is new' if extra else 'same entries in another order' if list(a) != list(b) else 'no difference'
+
+
 def first_diff(a: list[Any], b: list[Any]) -> str:
 	if a[0] == 'text' and b[0] == 'text':
 		for x, y in zip(str(a[1]).splitlines(), str(b[1]).splitlines()):
@@ -683,9 +875,11 @@ def norm_case(rec: dict[str, Any]) -> dict[str, Any]:
 	def norm_mod(m: dict[str, Any]) -> dict[str, Any]:
 		if m.get('stub') == 'g':
 			return stub_g()
+		if m.get('stub') == 'h':
+			return stub_h(int(m.get('hv', 0)))
 		return {'name': m['name'], 'ok': bool(m['ok']), 'imports': [tuple(x) for x in m['imports']],
 			'classes': [{'name': c['name'], 'methods': [{'name': x['name'], 'call': tuple(x['call']) if x.get('call') else None, 'bad': bool(x.get('bad')), 'lam': bool(x.get('lam')),
-				**({'gen': x['gen']} if x.get('gen') else {})} for x in c['methods']]} for c in m['classes']],
+				**({'gen': x['gen']} if x.get('gen') else {}), **({'src': list(x['src'])} if x.get('src') else {})} for x in c['methods']]} for c in m['classes']],
 			'vars': [tuple(x) for x in m['vars']]}
 	pool = [norm_mod(m) for m in rec['pool']]
 	ops = [[o[0], norm_mod(o[1])] if o[0] == 'resubmit' else [o[0], o[1]] for o in rec['ops']]
@@ -711,9 +905,18 @@ def case_class(case: dict[str, Any]) -> str:
 _RUNS: dict[str, dict[str, Any]] = {}
 
 
+def case_warm(ctx: Ctx, case: dict[str, Any]) -> bool:
+	"""Which sessions start with the library closure already in their cache directory: two of three generated cases, every other
+	corpus case (alternating with the run's seed); the corpus cases about loading library modules first always start empty."""
+	cid = str(case.get('id', ''))
+	if cid.startswith('corpus/'):
+		return not cid.startswith('corpus/lib-') and (sum(map(ord, cid)) + ctx.seed) % 2 == 0
+	return cid.rsplit('#', 1)[-1].isdigit() and int(cid.rsplit('#', 1)[-1]) % 3 != 0
+
+
 def session_run(ctx: Ctx, case: dict[str, Any]) -> dict[str, Any]:
 	if case['id'] not in _RUNS:
-		_RUNS[case['id']] = run_session(ctx, case['pool'], case['ops'])
+		_RUNS[case['id']] = run_session(ctx, case['pool'], case['ops'], warm=case_warm(ctx, case))
 	return _RUNS[case['id']]
 
 
@@ -750,12 +953,14 @@ def search_fresh(ctx: Ctx, cases: list[dict[str, Any]], all_seed_cases: int) -> 
 
 
 def search_frame(ctx: Ctx, cases: list[dict[str, Any]]) -> SearchResult:
-	res = SearchResult('loading one module never changes node classes / symbol objects of another registered module')
+	res = SearchResult('no op changes node classes, definition node facts, symbol objects or symbol attribute trees of another registered module; a module registered again says what it said at its first load')
 	for case in cases:
 		run = session_run(ctx, case)
 		res.cases += len(case['ops'])
 		for b in run['frame_bad']:
 			res.findings.append(Finding(key='frame', what=f"op {b['op']} changed module {b['module']}: {b['what']}", replay={'case': case, **b}))
+		for b in run['reload_bad']:
+			res.findings.append(Finding(key='reload-facts', what=f"after op {b['op']} module {b['module']} (same file) no longer says what it said when it was first loaded in this session: {b['what']}", replay={'case': case, **b}))
 	res.distinct = res.cases
 	return res
 
@@ -1029,7 +1234,7 @@ PARTIAL: dict[str, Any] = {
 	'remaining_hypotheses': 'World: dotted module names; ExpandModules / renderer read the symbol table only inside the import closure (proved for the descriptor language); acyclic import graph; no file imports the in-memory module; the library modules and their imports are a pinned base that the history does not unload; no RecursionError',
 	'regression': 'the three former counterexamples (failed-load-retry, dep-unloaded, lib-closure-first) are examples proved equal to the fresh result by decide, and corpus cases that must pass on the real code',
 	'correspondence_only': 'that the real Modules/Entrypoints/SymbolDB/processors/transpile stacks behave like the model on generated pools (streams session, session-faulty); the concrete descriptor language (which keys ExpandModules inserts, when the renderer fails)',
-	'search_only': 'PYTHONHASHSEED independence (incl. the order of lambda capture lists), byte equality of real texts with a fresh process, purity of Jinja/i18n rendering, node classes / symbol object identity of untouched modules, unloading library modules',
+	'search_only': 'PYTHONHASHSEED independence (incl. the order of lambda capture lists), byte equality of real texts with a fresh process, purity of Jinja/i18n rendering, node classes / definition node facts / symbol object identity and attribute trees of untouched and of reloaded modules (memoised node properties, symbol snapshot restore order), unloading library modules',
 }
 ASSUMPTIONS: list[str] = [
 	'module names are non-empty and contain no "#" (GoodName; true of dotted Python paths)',
@@ -1102,14 +1307,17 @@ def run_checked(ctx: Ctx, before: str | None) -> int:
 		streams = [stream_session(ctx, 'session', [*corpus, *valid]), stream_session(ctx, 'session-faulty', faulty[:n_faulty])]
 	with ctx.timed('search'):
 		fresh_cases = [*corpus, *valid[:ctx.scale(2, 20)], *faulty[:ctx.scale(2, 12)]]
+		def timed(name: str, f: Any, *a: Any) -> SearchResult:
+			with ctx.timed(f'search:{name}'):
+				return f(*a)
 		searches = [
-			search_fresh(ctx, fresh_cases, ctx.scale(2, len(corpus) + 4)),
-			search_frame(ctx, [c for c in [*corpus, *valid, *faulty] if c['id'] in _RUNS]),
-			search_interactive(ctx),
-			search_runner(ctx),
-			search_depends(ctx),
-			search_prop_keys(ctx),
-			audit_hash_order(),
+			timed('fresh', search_fresh, ctx, fresh_cases, ctx.scale(1, len(corpus) + 4)),
+			timed('frame', search_frame, ctx, [c for c in [*corpus, *valid, *faulty] if c['id'] in _RUNS]),
+			timed('interactive', search_interactive, ctx),
+			timed('runner', search_runner, ctx),
+			timed('depends', search_depends, ctx),
+			timed('prop_keys', search_prop_keys, ctx),
+			timed('audit', audit_hash_order),
 		]
 	if before is not None and tree_fingerprint() != before:
 		raise common.InfraError(f'{common.REPO} changed while the check was running: session and fresh-process results are not comparable, run again')
@@ -1131,10 +1339,10 @@ def replay(ctx: Ctx, path: str) -> int:
 		compare_with_fresh(ctx, res, case, run, [HASH_SEEDS[0]], set())
 		for f in res.findings:
 			print(f'REPLAY finding key={f.key}: {f.what}')
-		for b in run['frame_bad']:
+		for b in [*run['frame_bad'], *run['reload_bad']]:
 			print(f'REPLAY frame finding: {b}')
 		ctx.cleanup()
-		return 1 if res.findings or run['frame_bad'] else 0
+		return 1 if res.findings or run['frame_bad'] or run['reload_bad'] else 0
 	ctx2 = Ctx(PROP, rec.get('tier', 'quick'), int(rec.get('seed', 0)))
 	return run_again(ctx2)
 
